@@ -131,8 +131,9 @@ def get_model(
     g = Graph(uri=uri, user=username, password=password, name=dbname)
 
     instance_model = Model('Neo4j imported model', lang_classes_factory)
-    # Get all assets
-    assets_results = g.run('MATCH (a) WHERE a.type IS NOT NULL RETURN DISTINCT a').data()
+    # Get all assets. The nodes of an attack graph ingested into the same
+    # database have a type too, only the nodes of a model have an asset_id.
+    assets_results = g.run('MATCH (a) WHERE a.asset_id IS NOT NULL RETURN DISTINCT a').data()
     for asset in assets_results:
         asset_data = dict(asset['a'])
         logger.debug(
@@ -158,7 +159,7 @@ def get_model(
         instance_model.add_asset(asset_obj, asset_id)
 
     # Get all relationships
-    assocs_results = g.run('MATCH (a)-[r1]->(b),(a)<-[r2]-(b) WHERE a.type IS NOT NULL RETURN DISTINCT a, r1, r2, b').data()
+    assocs_results = g.run('MATCH (a)-[r1]->(b),(a)<-[r2]-(b) WHERE a.asset_id IS NOT NULL RETURN DISTINCT a, r1, r2, b').data()
 
     for assoc in assocs_results:
         left_field = list(assoc['r1'].types())[0]
